@@ -135,7 +135,7 @@ def real_cases(draw):
     sh = draw(st.sampled_from([(), (), (g,)]))
     e = G.expr(sh, (), draw(st.integers(1, 3)))
     # make sure conj/real nodes are present in most cases
-    k = draw(st.sampled_from(["conj", "real", "conjreal", "imag", "none"]))
+    k = draw(st.sampled_from(["conj", "real", "conjreal", "imag", "none", "incond", "incond", "imagincond"]))
     inner = G.expr(sh, (), 1)
     if k == "conj":
         e = ["add", e, ["conj", inner]]
@@ -145,6 +145,14 @@ def real_cases(draw):
         e = ["add", ["conj", e], ["real", ["conj", inner]]]
     elif k == "imag":
         e = ["add", e, ["imag", inner]]
+    elif k in ("incond", "imagincond"):
+        # complex nodes below a condition
+        a, b_ = G.expr((), (), 1), G.expr((), (), 1)
+        w = "imag" if k == "imagincond" else draw(st.sampled_from(["conj", "real"]))
+        c = [draw(st.sampled_from(["lt", "gt", "le", "ge"])), [w, a], b_]
+        if draw(st.booleans()):
+            c = ["not", c] if draw(st.booleans()) else ["and", c, ["lt", b_, ["conj", a]]]
+        e = ["cond", c, e, ["mul", ["lit", 2], e]]
     return {"world": world, "expr": e, "vars": G.vars, "mode": "real"}
 
 
